@@ -71,16 +71,16 @@ theorem abs_lt_of_tkey {p a b : Inst} (ha : KindOk p a) (hb : KindOk p b) (hd : 
     · rw [if_neg (by omega), if_neg (by omega)]; omega
 
 /-- the times of one day, in the enumeration's order, ascend -/
-theorem dayL_sorted (r : Rule) (p : Inst) (hr : WfRule r) (hp : WfInst p) (hs : SeedOk r p) (y m d : Nat) :
+theorem dayL_sorted (r : Rule) (p : Inst) (hr : WfRule r) (hp : WfInst p) (y m d : Nat) :
     ((makeEnum p r).timesIx.map (mkz y m d p.ms)).Pairwise (fun a b => absOf a < absOf b) := by
   rw [List.pairwise_map]
-  have he : EnumOk (makeEnum p r) := makeEnum_ok r p hr hp hs.timeOk
+  have he : EnumOk (makeEnum p r) := makeEnum_ok r p hr hp
   refine (timesIx_asc he).imp_of_mem ?_
   intro a b ha hb hlt
   obtain ⟨a1, a2, a3⟩ := mem_timesIx ha
   obtain ⟨b1, b2, b3⟩ := mem_timesIx hb
-  have ka := (exp_of_enum (x := mkz y m d p.ms a) hr hp hs a1 a2 a3).1
-  have kb := (exp_of_enum (x := mkz y m d p.ms b) hr hp hs b1 b2 b3).1
+  have ka := (exp_of_enum (x := mkz y m d p.ms a) hr hp a1 a2 a3).1
+  have kb := (exp_of_enum (x := mkz y m d p.ms b) hr hp b1 b2 b3).1
   exact abs_lt_of_tkey ka kb rfl hlt
 
 /-- the index the day loop computes is the position in the enumeration -/
